@@ -1312,6 +1312,8 @@ fn scenario_watch(sc: &str) -> Result<Violations, String> {
             "i" => { db.inc_value("k".into(), 1); for w in 0..2 { expect[w] += 2 * sub[w]; } }
             "r" => { remove_key(&"k".to_string(), &db); for w in 0..2 { expect[w] += sub[w]; } }
             "f" => { set_key_value("k".into(), "zz".into(), 0, &db, &dbs); }
+            // the key has never been snapshotted (state New): removing it drops the entry instead of leaving a tombstone - the subscriptions outlive that
+            "n" => { db.set_value_version(&"k".to_string(), &"5".to_string(), 3, ValueStatus::New, 0, 0, 3); }
             _ => return Err("bad event".into()),
         }
         let got = [drain(&mut ra), drain(&mut rb)];
@@ -1336,6 +1338,10 @@ fn all_watch_scenarios() -> Vec<String> {
         for e in evs { cur.push(e.to_string()); rec(evs, cur, depth - 1, out); cur.pop(); }
     }
     rec(&evs, &mut vec![], if deep() { 5 } else { 4 }, &mut out);
+    // the same key in state New (never snapshotted): subscribe, then every sequence of <= 3 (4) writes / removes - a subscription ends by unwatch / unwatch-all / disconnect only
+    let mut tails = vec![];
+    rec(&["s", "i", "r", "wB"], &mut vec![], if deep() { 4 } else { 3 }, &mut tails);
+    for t in tails { out.push(format!("n.wA.{}", t)); out.push(format!("wA.n.{}", t)); }
     out
 }
 
